@@ -21,7 +21,8 @@ Record fenv := {
   e_idate : str;                 (* formatted internal date *)
   e_msg : str;                   (* reconstructed message, CRLF line ends *)
   e_bs : str;                    (* value of BuildBodyStructure after "BODYSTRUCTURE " *)
-  e_parts : list (str * str)     (* <part number>[.MIME] -> content of that part / its MIME header *)
+  e_parts : list (str * str);    (* <part number>[.MIME] -> content of that part / its MIME header *)
+  e_mail : list (str * list (str * str))  (* net/mail's reading of the address headers of this message *)
 }.
 
 Fixpoint assoc (k : str) (l : list (str * str)) : option str :=
@@ -229,7 +230,7 @@ Definition answer (it : pitem) (e : fenv) : option (list out) :=
   else if str_eqb nm (S_ "INTERNALDATE") then Some [Inline (S_ "INTERNALDATE") ([DQ] ++ e_idate e ++ [DQ])]
   else if str_eqb nm (S_ "RFC822.SIZE") then Some [Inline (S_ "RFC822.SIZE") (dec (length msg))]
   else if str_eqb nm (S_ "ENVELOPE") then
-    match envelope_value msg with Some v => Some [Inline (S_ "ENVELOPE") v] | None => None end
+    match envelope_value (mail_table (e_mail e)) msg with Some v => Some [Inline (S_ "ENVELOPE") v] | None => None end
   else if str_eqb nm (S_ "BODYSTRUCTURE") then Some [Inline (S_ "BODYSTRUCTURE") (e_bs e)]
   else if str_eqb nm (S_ "BODY") then Some [Inline (S_ "BODY") (e_bs e)]
   else if str_eqb nm (S_ "RFC822.HEADER") then Some [Lit (S_ "RFC822.HEADER") hdrs]
